@@ -195,9 +195,10 @@ struct VecSlot : IVec {
     Arena& arena = *w.arena;
     T val = make_elem<T>(uint64_t(op.a[1]));
     switch (op.kind) {
-      case kVecAppend: { Error e = v.append(arena, val); if (e == Error::kOk) m.push_back(val); sim::logf("vec_append<%s> err=%u size=%zu", tname, unsigned(e), v.size()); break; }
-      case kVecPrepend: { Error e = v.prepend(arena, val); if (e == Error::kOk) m.insert(m.begin(), val); sim::logf("vec_prepend<%s> err=%u", tname, unsigned(e)); break; }
-      case kVecInsert: { size_t idx = m.empty() ? 0 : size_t(op.a[2]) % (m.size() + 1); Error e = v.insert(arena, idx, val); if (e == Error::kOk) m.insert(m.begin() + long(idx), val); sim::logf("vec_insert<%s> at=%zu err=%u", tname, idx, unsigned(e)); break; }
+      // (one call in five passes an element OF THE VECTOR ITSELF by reference - std::vector::push_back/insert allow that)
+      case kVecAppend: { bool alias = !m.empty() && (uint64_t(op.a[3]) % 5) == 4; if (alias) { val = m[size_t(uint64_t(op.a[1]) % m.size())]; sim::count("c18.probe.vector_aliased_argument"); } Error e = alias ? v.append(arena, v[size_t(uint64_t(op.a[1]) % m.size())]) : v.append(arena, val); if (e == Error::kOk) m.push_back(val); sim::logf("vec_append<%s> err=%u size=%zu", tname, unsigned(e), v.size()); break; }
+      case kVecPrepend: { bool alias = !m.empty() && (uint64_t(op.a[3]) % 5) == 4; if (alias) val = m[size_t(uint64_t(op.a[1]) % m.size())]; Error e = alias ? v.prepend(arena, v[size_t(uint64_t(op.a[1]) % m.size())]) : v.prepend(arena, val); if (e == Error::kOk) m.insert(m.begin(), val); sim::logf("vec_prepend<%s> err=%u", tname, unsigned(e)); break; }
+      case kVecInsert: { size_t idx = m.empty() ? 0 : size_t(op.a[2]) % (m.size() + 1); bool alias = !m.empty() && (uint64_t(op.a[3]) % 5) == 4; if (alias) val = m[size_t(uint64_t(op.a[1]) % m.size())]; Error e = alias ? v.insert(arena, idx, v[size_t(uint64_t(op.a[1]) % m.size())]) : v.insert(arena, idx, val); if (e == Error::kOk) m.insert(m.begin() + long(idx), val); sim::logf("vec_insert<%s> at=%zu err=%u", tname, idx, unsigned(e)); break; }
       case kVecRemoveAt: { if (m.empty()) break; size_t idx = size_t(op.a[2]) % m.size(); v.remove_at(idx); m.erase(m.begin() + long(idx)); sim::logf("vec_remove_at<%s> %zu", tname, idx); break; }
       case kVecPop: { if (m.empty()) break; T x = v.pop(); SIM_CHECK(memcmp(&x, &m.back(), sizeof(T)) == 0, "c18:vector-content", "ArenaVector<%s>::pop() returned a wrong element", tname); m.pop_back(); sim::logf("vec_pop<%s>", tname); break; }
       case kVecResize: {
